@@ -141,21 +141,33 @@ def jsonable(v):
 
 # ----------------------------------------------------------------------------- solving
 
-def solve(pc, goal, timeout_ms, want_model=True):
+def solve(pc, goal, timeout_ms, want_model=True, light=False):
     """Check validity of pc => goal.  -> (verdict, model|None, backend, seconds)
     verdict: 'unsat' (discharged) | 'sat' (refuted) | 'unknown'."""
     t0 = time.time()
+    ng = z3.Not(strip_foralls(goal))
+    qf = [c for c in pc if not _has_quantifier(c)]
+    if len(qf) < len(pc) and not _has_quantifier(ng):
+        # a subset of the hypotheses that already proves the goal proves it: try the quantifier-free ones first (fast path)
+        s0 = z3.Solver()
+        s0.set('timeout', min(3000, timeout_ms))
+        s0.add(*qf)
+        s0.add(ng)
+        if s0.check() == z3.unsat:
+            return 'unsat', None, 'z3', time.time() - t0
     s = z3.Solver()
     s.set('timeout', timeout_ms)
     for c in pc:
         s.add(c)
-    s.add(z3.Not(strip_foralls(goal)))
+    s.add(ng)
     r = s.check()
     dt = time.time() - t0
     if r == z3.unsat:
         return 'unsat', None, 'z3', dt
     if r == z3.sat:
         return 'sat', s.model(), 'z3', dt
+    if light:
+        return 'unknown', None, 'z3', dt
     # unknown -> cvc5 on the SMT-LIB dump
     v, dt2 = cvc5_check(s, max(5, timeout_ms // 1000))
     if v == 'unsat':
@@ -450,6 +462,16 @@ class Verifier:
         loops_sorted = sorted((n for st in body_stmts for n in ast.walk(st) if isinstance(n, (ast.For, ast.While))),
                               key=lambda n: (n.lineno, n.col_offset))
         loop_ids = {id(n): i for i, n in enumerate(loops_sorted)}
+        # loops may be keyed by the source text their iterable / test starts with (robust against loops added elsewhere)
+        loopspecs = {}
+        for key, spec in c.loops.items():
+            if isinstance(key, str):
+                hits = [i for i, n in enumerate(loops_sorted)
+                        if ast.unparse(n.iter if isinstance(n, ast.For) else n.test).startswith(key)]
+                if len(hits) != 1:
+                    raise Unsupported('loop anchor %r matches %d loops in %s (contract needs re-anchoring)' % (key, len(hits), c.target))
+                key = hits[0]
+            loopspecs[key] = spec
         groups = {}     # obligation name -> list of instances
         order = []
         schedule = []
@@ -492,7 +514,7 @@ class Verifier:
                     env['old!' + k] = v
                 fr = Frame(c.qualname, fref.mod, env)
                 fr.is_top = True
-                fr.loopspecs = c.loops
+                fr.loopspecs = loopspecs
                 fr.loop_ids = loop_ids
                 fr.cls = fref.cls
                 if c.pre_state:
@@ -594,7 +616,20 @@ class Verifier:
             for ob in insts:
                 if z3.is_true(z3.simplify(ob.goal)):
                     continue
-                v, model, be, dt = solve(ob.pc, ob.goal, self.timeout_ms)
+                if os.environ.get('VERIF_TRACE'):
+                    print('solve', name, len(ob.pc), flush=True)
+                    if os.environ['VERIF_TRACE'] == name:
+                        ss = z3.Solver()
+                        ss.add(*ob.pc)
+                        ss.add(z3.Not(strip_foralls(ob.goal)))
+                        global _TR
+                        _TR = globals().get('_TR', 0) + 1
+                        open('/verif/.scratch/trace%d.smt2' % _TR, 'w').write(ss.to_smt2())
+                # once a candidate counter-model exists for this clause the remaining path instances get a short budget
+                v, model, be, dt = solve(ob.pc, ob.goal, self.timeout_ms if verdict != 'candidate' else 2000,
+                                         light=(verdict == 'candidate'))
+                if os.environ.get('VERIF_TRACE'):
+                    print('   ->', v, be, round(dt, 2), flush=True)
                 backend.add(be)
                 secs += dt
                 if v == 'sat':
